@@ -12,13 +12,14 @@ use crate::worlds::store::StoreWorld;
 use crate::worlds::codec::CodecWorld;
 use crate::worlds::chan::ChanWorld;
 use crate::worlds::recon::ReconWorld;
+use crate::worlds::handlers::HandlersWorld;
 
 fn agent(focus: &'static str, name: &'static str) -> Arc<dyn World> {
     Arc::new(AgentWorld { focus, name })
 }
 
 pub fn world_names() -> Vec<&'static str> {
-    vec!["agent-c01", "agent-c02", "agent-c03", "agent-c04", "agent-c05", "agent-c14", "agent-c04f", "agent-c20", "agent-mix", "dlrt-value", "dlrt-map", "dltask-value", "dltask-map", "vote", "store-mem", "store-rocks", "codec", "chan", "recon"]
+    vec!["agent-c01", "agent-c02", "agent-c03", "agent-c04", "agent-c05", "agent-c14", "agent-c04f", "agent-c20", "agent-mix", "dlrt-value", "dlrt-map", "dltask-value", "dltask-map", "vote", "store-mem", "store-rocks", "codec", "chan", "recon", "handlers"]
 }
 
 pub fn world_by_name(name: &str) -> Option<Arc<dyn World>> {
@@ -40,6 +41,7 @@ pub fn world_by_name(name: &str) -> Option<Arc<dyn World>> {
         "codec" => Arc::new(CodecWorld),
         "chan" => Arc::new(ChanWorld),
         "recon" => Arc::new(ReconWorld),
+        "handlers" => Arc::new(HandlersWorld),
         "store-mem" => Arc::new(StoreWorld { kind: "mem", name: "store-mem" }),
         "store-rocks" => Arc::new(StoreWorld { kind: "rocks", name: "store-rocks" }),
         _ => return None,
@@ -77,6 +79,16 @@ const STORE_ASSUMPTIONS: &[&str] = &[
     "a clean batch is evidence for the explored seeds, not a proof",
 ];
 
+const HANDLERS_ASSUMPTIONS: &[&str] = &[
+    "the observation point is a trace recorded through context.effect closures (one extra effect step before every action, at the start and at the end of every lifecycle handler); the top-level order of triggers (programs received on `run`, continuations of suspended futures) is schedule dependent and is taken from the recorded trace, everything inside a trigger is decided by the reference interpreter",
+    "documents silent, code followed: set_value always triggers on_event/on_set, also when the value does not change; update of an existing key triggers on_update with prev = Some(old); remove of an absent key triggers no handler; clear of an empty map triggers on_clear(empty map); the map passed to on_update/on_remove is the map after the change; a Get inside a cascade sees the current state (all completed nested handlers included); on_set receives Some(previous) even for the first set (previous = the initial 0)",
+    "both lifecycle functions of a value item (on_event, on_set) are *called* (to build their handlers) when the item_event is created, before either runs; only the execution of the returned handlers is ordered, which is what the trace records",
+    "failure: a failing action ends its handler and all handlers it interrupted, nothing is rolled back. Whether the *agent* stops after a failure is outside the property text: docs/event_handler.md says 'all execution will stop and the agent will fail', the code does that for suspended continuations, on_start and on_stop but only logs an EffectError raised in a trigger started by a lane command and carries on. The reference accepts both; the discrepancy with the document is counted (probe.fail_swallowed_agent_continued), not reported",
+    "acyclic programs only: a handler of item i (and every continuation it suspends) modifies only items > i in the order v0<v1<v2<m0<m1; top-level programs, on_start and on_stop may modify everything; Fail is not generated in on_start",
+    "a continuation suspended inside on_stop never runs (the agent ends); continuations that are still pending when the harness stops the agent after a quiet window of 250 simulated ms (delays are <= 50 ms) are reported as cont_never_ran",
+    "the agent + runtime future is polled as one task; remote peers are harness code speaking the product's codecs over the product's byte channels; a clean batch is evidence for the explored seeds, not a proof",
+];
+
 pub fn spec_for(property: &str) -> Option<CheckSpec> {
     let a = || AGENT_ASSUMPTIONS.iter().map(|s| s.to_string()).collect::<Vec<_>>();
     Some(match property {
@@ -86,6 +98,12 @@ pub fn spec_for(property: &str) -> Option<CheckSpec> {
         "C04" => CheckSpec { property: "C04", level: "exploration", parts: vec![part("agent-c04", 3000, 300_000), part("agent-c04f", 2000, 200_000), part("agent-mix", 1000, 100_000)], assumptions: a() },
         "C05" => CheckSpec { property: "C05", level: "fault_enumeration", parts: vec![part("agent-c05", 3000, 300_000), part("agent-mix", 1000, 100_000)], assumptions: a() },
         "C20" => CheckSpec { property: "C20", level: "exploration", parts: vec![part("agent-c20", 3000, 300_000), part("agent-c04f", 1000, 100_000), part("agent-mix", 1000, 100_000)], assumptions: a() },
+        "C06" => CheckSpec {
+            property: "C06",
+            level: "exploration",
+            parts: vec![part("handlers", 3000, 300_000)],
+            assumptions: HANDLERS_ASSUMPTIONS.iter().map(|s| s.to_string()).collect(),
+        },
         "C07" => CheckSpec { property: "C07", level: "exploration", parts: vec![part("dlrt-value", 3000, 300_000), part("dlrt-map", 3000, 300_000)], assumptions: vec![
             "the downlink runtime is polled as one task; the remote lane and the consumers are scripted harness code speaking the product's codecs over the product's byte channels".into(),
             "workloads use one writer per map key and clears only in single-writer runs so that 'as if all were sent' is unambiguous".into()] },
